@@ -71,6 +71,13 @@ CHECKS = {
    design_ref="DESIGN.md section 3 C06, section 7 (KF2, KF3)",
    note="Validity predicate, not one expected answer (which member breaks a cycle depends on who enters first). KF2 (firewall as a cycle member: livelock) excluded by construction: firewalls stay off every statically possible cycle; KF3 (stale default after the cycle is gone) tolerated only for defaults assigned in an earlier round, counted in evidence. InMemoryStorageEngine only.",
    engine="E2 single-thread scheduler"),
+ "C05": dict(
+   technique="fault enumeration inside a property-based search: generated histories x one fault (future dropped after k Pending returns with every yield hook yielding once, k enumerated over the measured suspension points; or an injected executor panic); oracle = panic hook + idle-runtime oracle + from-scratch values + restart/persistence-gap check",
+   category="fault_enumeration",
+   text="For generated programs and histories one call is faulted: a query, input_session(), set_input, update, refresh or commit future is dropped after exactly k Pending returns while every verif_hooks yield point yields once (so k ranges over the engine's own suspension points: inside repair, firewall repair, backward projection, between unwiring and re-wiring edges, around publishing), optionally with a sibling reader task in flight; or a chosen executor panics with a marker payload. Afterwards: no panic other than the marker may occur (thread-local hook), the panic reaches the caller iff the flagged executor ran, every later step completes (idle-runtime oracle), every node has its from-scratch value, and on DbBacked<MockKv> a clean restart must find every submitted batch in the store (exact persistence-gap check) and answer correctly, followed by an edit and re-query.",
+   design_ref="DESIGN.md section 3 C05",
+   note="Quick tier: <= 8 values of k per case spread over the measured range; thorough: all k. preempt_point hooks never yield in cancellation mode, so no future is dropped where the real code cannot be suspended. A cancelled set_input/update/refresh may have had no effect or its full effect.",
+   engine="E2 single-thread scheduler"),
 }
 
 NOT_YET = {
